@@ -735,7 +735,8 @@ var subHist = runlog.Register(&runlog.Sub[Case]{
 		"30% of the index segments of op and read addresses, and of the numeric object keys of initial/attached/merged trees, are written in another integer syntax (+i, 0i/00i/0_i octal, 0o, 0O, 0x, 0X, 0x0, 0x_, 0b, 0B, digit separators, -0), 20% of the explicit indices are moved into the name as a last segment in any syntax. " +
 		"Merge: policy default (60%) or replace/replace-arr/append/prepend; source generic data (40%), mixed Go representations (typed maps/slices, arrays, structs, pointers, named types, embedded *Config), a fresh *Config built from a tree (half of them top-level lists of objects) that stays in the case as a pooled handle, the *Config of an existing handle (the root, a child handle, a stand-alone or detached config; a source that contains the receiver or that the merge itself would modify is skipped), or generic data that embeds such a *Config under a (dotted) key or as a list element; addresses inside merged trees are fed to the later operations through the receiver and through the source. Half of the cases start from a random tree. " +
 		"40% of the removals that address a list element are followed by 1-3 more removals from the same list through the same receiver (index 0, or the same index again), so that lists lose their last remaining element (12% of the histories); the emptied list's address is fed to the later operations and reads (refill, padding write, Child, writes through that child, removal of and from the empty list, merges into it and from configs that hold it); one in four generated lists of merged/attached trees is empty to begin with. " +
-		"After every step: generic dump of the root and of EVERY pooled handle (incl. all former merge sources: Merge copies, so a later write on either side must not show on the other) equals the path/tree model (shared by pointer with the handles), IsDict() iff the model has named keys; a list stays a list however few elements it holds: a node whose list elements were all removed, or that was written/merged in as an empty list where nothing or a primitive was, is a list with 0 elements (IsArray() true on old and new handles, CountField(name) = 0 for a pure list, the generic view shows an empty list, not nothing), and a node that never had a list part is none (IsArray() false; not asserted for the rest of a history once an empty list met a nil or a node without list part, where the statement does not say what results, nor for the Child of a nil setting); CountField(\"\") = list elements + named keys (nil entries count), CountField(name) = 1 for a primitive, = number of elements for a pure list; the step's address, one of 4 fixed addresses through the root and one through a pooled handle, and (after padding writes and every 4th step) one of the nil entries the receiver's tree holds are read through every getter, Has and Child via (name, idx), via the index as a decimal path segment or a segment in another integer syntax (alternating), via (prefix, idx) and via Child-by-Child navigation: all routes must observe the same and agree with the model. A nil entry (list padding, merged nil) exists: Has true, Bool/Int/Uint/Float fail, a Child (if given) is an empty config, CountField(name) is 0 or 1; String is not asserted. " +
+		"REJECTED OPERATIONS of every kind: walks through a primitive (Set*, SetChild, Remove, Child at overlapping addresses); about 1 in 6 Set*/SetChild is a write at the boundary of the index range: the explicit index just above the maximum index (half of them), 2-10 above, far above (1025, 5000, 1<<20, MaxInt32, MaxInt64), or exactly at a small maximum (accepted: the other side of the boundary), the maximum being the default 1024 or (6 in 10) a MaxIdx(0,1,2,3,4,7,9,16,64,1023) option given to that operation alone (an operation whose name has an index segment above its MaxIdx option is skipped: what such a segment denotes is C20's), or a negative index of the receiver's own list part; 6 in 10 of these addresses are a drawn address extended by 1-2 segments nothing was written to (q, r, deep, z, 5, 0, 2), so that the intermediate nodes of the rejected write do not exist (through the root and through handles); Remove/Child are sometimes given a MaxIdx option too; 1 in 10 merges from generic data holds a channel, a function or a complex number somewhere in its source (in a map at any depth, as a list element) and must fail. 1 in 10 initial trees, SetChild trees and data merges are handed over in Go struct representations (hist.StructRepr). " +
+		"After every step: generic dump of the root and of EVERY pooled handle (incl. all former merge sources: Merge copies, so a later write on either side must not show on the other) equals the path/tree model (shared by pointer with the handles), IsDict() iff the model has named keys; an operation the model rejects must return an error and CHANGE NOTHING: the stored trees (hook snapshot ucfg.VerifFingerprint with node identities: every node, name, payload; empty containers and nil entries are nodes like any other) of the root and of every pooled handle are identical before and after it, in addition to all the comparisons below; a list stays a list however few elements it holds: a node whose list elements were all removed, or that was written/merged in as an empty list where nothing or a primitive was, is a list with 0 elements (IsArray() true on old and new handles, CountField(name) = 0 for a pure list, the generic view shows an empty list, not nothing), and a node that never had a list part is none (IsArray() false; not asserted for the rest of a history once an empty list met a nil or a node without list part, where the statement does not say what results, nor for the Child of a nil setting); CountField(\"\") = list elements + named keys (nil entries count), CountField(name) = 1 for a primitive, = number of elements for a pure list; the step's address, one of 4 fixed addresses through the root and one through a pooled handle, and (after padding writes and every 4th step) one of the nil entries the receiver's tree holds are read through every getter, Has and Child via (name, idx), via the index as a decimal path segment or a segment in another integer syntax (alternating), via (prefix, idx) and via Child-by-Child navigation: all routes must observe the same and agree with the model. A nil entry (list padding, merged nil) exists: Has true, Bool/Int/Uint/Float fail, a Child (if given) is an empty config, CountField(name) is 0 or 1; String is not asserted. " +
 		"Non-trivial: a removal or write hit a node an earlier write of the same history put there (or an ancestor of it), or a write went through a pooled handle. Distinct: hash of the whole case.",
 	Gen: genCase,
 	Run: runCase,
